@@ -520,4 +520,72 @@ every interface, taken by the harness on every run): the model's state type is `
 theorem C16_gen_shared_state :
     Generated.C16.sharedStateWrites = some [0, 0] := by decide
 
+/-! ### Chained transformers (round D): `transform.Chain(jid.Escape, jid.Unescape)` is the identity -/
+
+/-- invariant of two chained stages that honour the step contract, for every schedule -/
+theorem C16_chain_invariant (f g : Bytes → Bytes) (s1 s2 : Step) (h1 : StepOK f s1) (h2 : StepOK g s2)
+    (hnil : f [] = []) (s : Bytes) (sched : List CAct) :
+    (driveChain s1 s2 s sched).out ++
+      g ((driveChain s1 s2 s sched).mid ++ f ((driveChain s1 s2 s sched).buf ++ (driveChain s1 s2 s sched).pending))
+      = g (f s) := by
+  unfold driveChain
+  suffices h : ∀ (c : Chain), (c.out ++ g (c.mid ++ f (c.buf ++ c.pending)) = g (f s)) →
+      ((sched.foldl (Chain.act s1 s2) c).out ++
+        g ((sched.foldl (Chain.act s1 s2) c).mid ++
+          f ((sched.foldl (Chain.act s1 s2) c).buf ++ (sched.foldl (Chain.act s1 s2) c).pending)) = g (f s)) by
+    exact h ⟨s, [], [], []⟩ (by simp)
+  induction sched with
+  | nil => intro c h; simpa using h
+  | cons a sched ih =>
+    intro c h
+    apply ih
+    cases a with
+    | feed k =>
+      simp only [Chain.act, List.append_assoc, List.take_append_drop]
+      exact h
+    | call1 cap =>
+      simp only [Chain.act]
+      have hp : (c.pending.isEmpty = true → c.pending = []) := by intro e; simpa using e
+      obtain ⟨_, _, h3⟩ := h1 cap c.pending.isEmpty c.buf c.pending hp
+      rw [List.append_assoc, h3]
+      exact h
+    | call2 cap =>
+      simp only [Chain.act]
+      have hp : ((c.pending.isEmpty && c.buf.isEmpty) = true → f (c.buf ++ c.pending) = []) := by
+        intro e
+        simp only [Bool.and_eq_true, List.isEmpty_iff] at e
+        rw [e.1, e.2]; simpa using hnil
+      obtain ⟨_, _, h3⟩ := h2 cap (c.pending.isEmpty && c.buf.isEmpty) c.mid (f (c.buf ++ c.pending)) hp
+      rw [List.append_assoc, h3]
+      exact h
+
+/-- once everything has been consumed the chain has produced the composition -/
+theorem C16_chain_complete (f g : Bytes → Bytes) (s1 s2 : Step) (h1 : StepOK f s1) (h2 : StepOK g s2)
+    (hf : f [] = []) (hg : g [] = []) (s : Bytes) (sched : List CAct)
+    (hp : (driveChain s1 s2 s sched).pending = []) (hb : (driveChain s1 s2 s sched).buf = [])
+    (hm : (driveChain s1 s2 s sched).mid = []) :
+    (driveChain s1 s2 s sched).out = g (f s) := by
+  have h := C16_chain_invariant f g s1 s2 h1 h2 hf s sched
+  rw [hp, hb, hm] at h
+  simpa [hf, hg] using h
+
+/-- **streaming round trip**: escaping and unescaping as two stages of one chain returns the
+input, for every split of the input, every destination capacity of either stage and every
+interleaving of the two stages -/
+theorem C16_chain_roundtrip (s : Bytes) (sched : List CAct)
+    (hp : (driveChain (fun cap _ src => escStep cap src) unescStep s sched).pending = [])
+    (hb : (driveChain (fun cap _ src => escStep cap src) unescStep s sched).buf = [])
+    (hm : (driveChain (fun cap _ src => escStep cap src) unescStep s sched).mid = []) :
+    (driveChain (fun cap _ src => escStep cap src) unescStep s sched).out = s := by
+  rw [C16_chain_complete escape unescape _ _ C16_esc_step_ok C16_unesc_step_ok rfl (by simp [unescape])
+    s sched hp hb hm]
+  exact C16_roundtrip s
+
+-- non-vacuity: `a @\` through the chain with small destinations, the second stage running
+-- while the first still holds input, ends with everything consumed
+example :
+    let c := driveChain (fun cap _ src => escStep cap src) unescStep [0x61, 0x20, 0x40, 0x5c]
+      [.feed 2, .call1 4, .call2 1, .call2 1, .feed 2, .call1 3, .call2 2, .call1 3, .call2 8, .call2 8]
+    c.pending = [] ∧ c.buf = [] ∧ c.mid = [] ∧ c.out = [0x61, 0x20, 0x40, 0x5c] := by decide
+
 end XmppModel.Props.C16
